@@ -27,12 +27,16 @@ namespace OpenMEEG::MeshIOs {
             char ch;
             unsigned npts;
             fs >> ch >> npts;
+            if (fs.fail())
+                throw OpenMEEG::WrongFileFormat(fname);
 
             Vertices vertices;
             for (unsigned i=0; i<npts; ++i) {
                 Vertex v;
                 Normal n;
                 fs >> v >> n;
+                if (fs.fail())
+                    throw OpenMEEG::WrongFileFormat(fname);
                 vertices.push_back(v);
             }
             indmap = geom.add_vertices(vertices);
@@ -44,11 +48,15 @@ namespace OpenMEEG::MeshIOs {
             char ch;
             unsigned ntrgs;
             fs >> ch >> ntrgs >> ntrgs >> ntrgs; // This number is repeated 3 times
+            if (fs.fail())
+                throw OpenMEEG::WrongFileFormat(fname);
 
             mesh.triangles().reserve(ntrgs);
             for (unsigned i=0; i<ntrgs; ++i) {
                 TriangleIndices t;
                 fs >> t[0] >> t[1] >> t[2];
+                if (fs.fail())
+                    throw OpenMEEG::WrongFileFormat(fname);
                 mesh.add_triangle(t,indmap);
             }
         }
